@@ -34,6 +34,8 @@ CLAIMED = {
          "Clause-level structural decision: branch-freeness (2D), Z^3 test on the same table (3D), covers of the oriented cover, and dead panic arms of the point-group lookup. Existence for every euclidean symbol and numbering independence are NOT decided.", "4/C15"),
  "C17": ("T3 + T9: every Euclidean::Yes is dominated by the four certificate predicates on the data chain ds -> cov -> simp -> key; verdict constructors confined to fail/give_up/is_euclidean; T4 Z^3 subgroup-count constants, key literal parsed by an engine-side reader, data-file format vs the emitting code",
          "Clause-level structural decision: a yes verdict cannot be produced without its certificate chain; fallback constants are those of Z^3; the invariant table parses in the reader's format (219 entries, 212 distinct). Totality, invariance and cover consistency are NOT decided.", "4/C17"),
+ "C19": ("T3 guard-dominates-effect (cut only on the failed search, from that search's seen set), T4 operand slots (edges leaving the seen set, vertex-splitting reduction slots, residual-step condition with both alternatives, flow cancellation), T8 set-typed edge collection, T9 undirected delegation",
+         "PARTIAL, structural necessary conditions only: separation bookkeeping, no-repeat and the reduction's slots are decided for every graph; that the cut has minimum size (max-flow/min-cut optimality) is NOT decided.", "11.6"),
  "C20": ("T8 type structure (owning field types, derived deep Clone of the Impl, fresh UnsafeCell in clone, no Send/Sync impl, no escaping borrows, &mut unite) + compile_fail witnesses with twins; T1-style effect check on the find path; T3 unite links the two roots",
          "Proves clone independence modulo Vec/HashMap::clone being deep; decides !Sync / no escaping borrow / &mut unite and that find only performs path compression to the exit-guarded root. 'Same representative <=> connected by the unions' and first-occurrence order are NOT decided.", "4/C20"),
  "C10": ("T1 write-through over every MIR body (all writers of FreeWord.w pass through normalized) + guard shape of normalized + type facts",
@@ -45,7 +47,6 @@ CLAIMED = {
 NA = {
  "C13": "exactness of stabiliser/core/intersection constructions is algorithm correctness over values; the only shape facts in its anchors (compaction, base row 0, reduced words) are armed under C10/C11 and are not necessary conditions of C13's own statement (DESIGN 4/C13)",
  "C16": "topology preservation of a rewriting system; no clause is visible in the shape of the code; the one majority-inferred candidate (exclusive seed ranges) does not change behaviour and was not armed (DESIGN 4/C16)",
- "C19": "max-flow/min-cut optimality and separation over all graphs are value-level; the code has no guard/effect structure that is a necessary condition of them (DESIGN 4/C19)",
 }
 
 
